@@ -131,7 +131,7 @@ func (d *muxDom) Gen(r *gen.R, tier string, emit func(string)) {
 		}
 		var regs []regd
 		mounts := map[int][2]string{} // child -> parent, path
-		children := map[int][]int{}    // parent -> children mounted below it (first mount of each child)
+		children := map[int][]int{}   // parent -> children mounted below it (first mount of each child)
 		nops := 2 + r.Intn(10)
 		for i := 0; i < nops; i++ {
 			m := r.Intn(nmux)
